@@ -92,6 +92,7 @@ def run(pid, tier, seed):
                             check16(chk, case, fx, name, src, orig, stub_tree, out, res, base_result, reqs, meta, si, k, overwrite)
                         if len(chk.samples) < 1 and confine and k == 3:
                             chk.sample(dict(case, result_head=out[:600]))
+        remover_correspondence(chk, drv, quick)
         for g, (case, in_block) in zip(drv.ask_many(reqs), meta):
             model = sorted((str(i[0]), None if i[1] == "none" else str(i[1])) for i in g)
             chk.rel("corr.C16.movable", model == sorted(in_block), dict(case, impl=sorted(in_block), model=model))
@@ -100,6 +101,71 @@ def run(pid, tier, seed):
         pd.close()
         drv.close()
     return chk.finish(proof, None)
+
+
+def stmt_sexp(s):
+    opt = lambda a: "none" if a is None else Q(a)
+    h = s[0]
+    if h == "importMod":
+        return ("importMod",) + tuple((Q(n), opt(a)) for n, a in s[1:])
+    if h == "importFrom":
+        return ("importFrom", Q(s[1])) + tuple((Q(n), opt(a)) for n, a in s[2:])
+    if h == "importStar":
+        return ("importStar", Q(s[1]))
+    if h == "other":
+        return ("other", str(s[1]))
+    return ("block", str(s[1])) + tuple(stmt_sexp(x) for x in s[2:])
+
+
+def sexp_stmt(g):
+    opt = lambda a: None if a == "none" else str(a)
+    h = str(g[0])
+    if h == "importMod":
+        return ("importMod",) + tuple((str(n), opt(a)) for n, a in g[1:])
+    if h == "importFrom":
+        return ("importFrom", str(g[1])) + tuple((str(n), opt(a)) for n, a in g[2:])
+    if h == "importStar":
+        return ("importStar", str(g[1]))
+    if h == "other":
+        return ("other", int(g[1]))
+    return ("block", int(g[1])) + tuple(sexp_stmt(x) for x in g[2:])
+
+
+def remover_correspondence(chk, drv, quick):
+    """RemoveImportsTransformer (real, through libcst) vs the Lean `removeStmts` on random statement trees of any nesting and
+    random item lists (items of the tree, module items, aliased variants, unrelated ones)"""
+    import libcst
+    from libcst.codemod.visitors import ImportItem
+    from monkeytype.type_checking_imports_transformer import RemoveImportsTransformer
+    rng = chk.rng
+    reqs, meta = [], []
+    for _ in range(150 if quick else 3000):
+        tree = applygen.gen_stmt_tree(rng, 3)
+        present = applygen.stmt_items(tree)
+        moved = []
+        for _ in range(rng.choice([0, 1, 2, 3, 5])):
+            r = rng.random()
+            if present and r < 0.6:
+                m, o, a = rng.choice(present)
+                if rng.random() < 0.25:
+                    a = rng.choice(applygen.ALIASES)          # same item, other alias
+                if rng.random() < 0.15:
+                    o = None if o is not None else rng.choice(applygen.NAMES)
+                moved.append((m, o, a))
+            else:
+                moved.append((rng.choice(applygen.MODS), rng.choice([None] + applygen.NAMES), rng.choice(applygen.ALIASES)))
+        src = applygen.stmts_to_source(tree) + "\n"
+        try:
+            out = libcst.parse_module(src).visit(RemoveImportsTransformer(
+                [ImportItem(m, obj_name=o, alias=a) for m, o, a in moved])).code
+            impl = applygen.source_to_stmts(out)
+        except Exception as e:
+            impl = ("error", repr(e)[:200])
+        reqs.append(("removeStmts", tuple(to_item(i) for i in moved), tuple(stmt_sexp(x) for x in tree)))
+        meta.append(({"source": src[:800], "moved": [list(i) for i in moved]}, impl))
+    for g, (case, impl) in zip(drv.ask_many(reqs), meta):
+        model = [sexp_stmt(x) for x in g]
+        chk.rel("corr.C16.removeStmts", model == list(impl), dict(case, impl=repr(impl)[:800], model=repr(model)[:800]))
 
 
 def check15(chk, case, src, orig, orig_ann, orig_imps, stub_ann, stub_text, out, res, overwrite, confine, apply_fn):
